@@ -62,6 +62,9 @@ class Faulty(Behaviour):
         self.idx = set(corrupt_idx)
         self.lo, self.hi = LAT[lat]
         self.corrupted = []
+        # request spellings of the firmwares printcore supports (Marlin, Repetier, Teacup)
+        self.resend_format = rng.choice([b"Resend: %d", b"Resend: %d", b"Resend:%d", b"rs %d",
+                                         b"rs N%d Expected checksum 67", b"Resend: N:%d"])
 
     def latency(self, dev, index, line):
         return self.rng.uniform(self.lo, self.hi)
@@ -127,7 +130,8 @@ def stream_job(ctx, col, case, tag, rng, job, faults, lat, perturb=True):
     p = printcore()
     p.loud = False
     want = expected_commands(job)
-    info = {"job_lines": len(job), "commands": len(want), "corrupt_tx": sorted(faults), "latency": lat, "tag": tag}
+    info = {"job_lines": len(job), "commands": len(want), "corrupt_tx": sorted(faults), "latency": lat, "tag": tag,
+            "resend_format": beh.resend_format.decode()}
     verdict = None
     # random yields everywhere + 0-3 delay points inside the two protocol-critical functions
     pert = sched.Perturber(sched.printrun_functions(), seed=rng.randrange(1 << 30),
@@ -365,7 +369,7 @@ def run_shard(ctx, col):
             col.count("enumerated_fault_patterns")
         # (b) random jobs ---------------------------------------------------------------------
         for j in range(P["random_jobs"]):
-            nlines = rng.choice([2, 5, 12, 30, 60])
+            nlines = rng.choice([2, 5, 12, 30, 60, 60, 130]) if j % 5 == 0 else rng.choice([2, 5, 12, 30])
             job = make_job(rng, nlines)
             ncmd = len(expected_commands(job))
             style = rng.choice(["none", "single", "pair", "burst", "tail", "many"])
